@@ -334,6 +334,9 @@ def dom_piston(rng, s, kw, geom, n):
 
 
 reg("EPpiston", "ep_piston.ep_piston:EPpiston", gen_piston, dom_piston, thermo=True, cost=0.01, minpts=1)
+# the documented two-wave structure needs a piston faster than the precursor's particle velocity and a plastic
+# wave slower than the elastic one (sub-yield and overdriven pistons are C20's subject)
+CAT["EPpiston"]["admit"] = lambda s: (s.up > s.vel_y) and (s.wv_pl < s.wv_el)
 
 
 def gen_mader(rng, geom):
@@ -741,6 +744,9 @@ def draw(ctx, cls, entry, rng, n=5, tries=25, geom=None):
     for k in range(tries):
         try:
             s, passed, g, full = instantiate(ctx, cls, entry, rng, geom=geom)
+            if e.get("admit") is not None and not e["admit"](s):
+                ctx.count("inadmissible_draw:" + cls.__name__)
+                continue
             pts, t = e["domain"](rng, s, full, g, n)
             sol = ctx.call(s, pts, t)
         except SolverRaised:
